@@ -419,9 +419,15 @@ class Lemmas:
                 if not (y[0] == "call" and y[1].split("::")[-1] == "len" and y[2]):
                     return None
                 key = cx.len_key(y[2][0])
-                if not (isinstance(key[1], str) and key[1].startswith("arg1.") and ".[]." in key[1]):
+                if not isinstance(key[1], str):
                     return None
-                queues.add(key[1].split(".[].")[0])
+                # a reference that may point into either queue (`match kind { Video => &v[i], Audio => &a[i] }`) renders as
+                # alternatives `p|q`; alternatives rooted in temporaries holding such references are ignored
+                alts = [a_ for a_ in key[1].split("|") if not a_.startswith("_")]
+                if not alts or not all(a_.startswith("arg1.") and ".[]." in a_ for a_ in alts):
+                    return None
+                for a_ in alts:
+                    queues.add(a_.split(".[].")[0])
             else:
                 inits.append(e)
         if len(inits) != 1 or not queues:
